@@ -297,7 +297,7 @@ Lemma plain_stable : forall l j c p, plain_label l -> stable (l, j, c, p).
 Proof.
   intros l j c p H. unfold stable. rewrite !(plain_label_kept l H). split; [reflexivity|].
   unfold kind_json, claim_kind; cbn [ad_label ad_json].
-  destruct (is_actions l); [reflexivity|]. destruct (is_exif l || is_metadata l); [reflexivity|].
+  destruct (is_actions l); [reflexivity|]. destruct (_ || _); [reflexivity|].
   destruct j; reflexivity.
 Qed.
 
